@@ -22,6 +22,9 @@ from .values import (
     to_string,
     to_number,
     to_integer,
+    to_int32,
+    parse_int,
+    parse_float,
 )
 from .errors import JSError, MemoryLimitError, TimeLimitError
 
@@ -849,72 +852,10 @@ class Context:
             return x == int(x)
 
         def parseInt_fn(*args):
-            s = to_string(args[0]) if args else ""
-            radix = to_integer(args[1]) if len(args) > 1 else 10
-            if radix == 0:
-                radix = 10
-            s = s.strip()
-            if not s:
-                return float("nan")
-            # Handle leading sign
-            sign = 1
-            if s.startswith("-"):
-                sign = -1
-                s = s[1:]
-            elif s.startswith("+"):
-                s = s[1:]
-            # Handle 0x prefix for hex
-            if s.startswith("0x") or s.startswith("0X"):
-                radix = 16
-                s = s[2:]
-            # Parse digits
-            result = 0
-            found = False
-            for ch in s:
-                if ch.isdigit():
-                    digit = ord(ch) - ord("0")
-                elif ch.isalpha():
-                    digit = ord(ch.lower()) - ord("a") + 10
-                else:
-                    break
-                if digit >= radix:
-                    break
-                result = result * radix + digit
-                found = True
-            if not found:
-                return float("nan")
-            return sign * result
+            return self._global_parseint(*args)
 
         def parseFloat_fn(*args):
-            s = to_string(args[0]) if args else ""
-            s = s.strip()
-            if not s:
-                return float("nan")
-            # Find the longest valid float prefix
-            i = 0
-            has_dot = False
-            has_exp = False
-            if s[i] in "+-":
-                i += 1
-            while i < len(s):
-                if s[i].isdigit():
-                    i += 1
-                elif s[i] == "." and not has_dot:
-                    has_dot = True
-                    i += 1
-                elif s[i] in "eE" and not has_exp:
-                    has_exp = True
-                    i += 1
-                    if i < len(s) and s[i] in "+-":
-                        i += 1
-                else:
-                    break
-            if i == 0:
-                return float("nan")
-            try:
-                return float(s[:i])
-            except ValueError:
-                return float("nan")
+            return self._global_parsefloat(*args)
 
         num_constructor.set("isNaN", isNaN_fn)
         num_constructor.set("isFinite", isFinite_fn)
@@ -1198,78 +1139,13 @@ class Context:
 
     def _global_parseint(self, *args):
         """Global parseInt."""
-        s = to_string(args[0]) if args else ""
-        radix = to_integer(args[1]) if len(args) > 1 else 10
-        if radix == 0:
-            radix = 10
-        s = s.strip()
-        if not s:
-            return float("nan")
-        sign = 1
-        if s.startswith("-"):
-            sign = -1
-            s = s[1:]
-        elif s.startswith("+"):
-            s = s[1:]
-        if s.startswith("0x") or s.startswith("0X"):
-            radix = 16
-            s = s[2:]
-        result = 0
-        found = False
-        for ch in s:
-            if ch.isdigit():
-                digit = ord(ch) - ord("0")
-            elif ch.isalpha():
-                digit = ord(ch.lower()) - ord("a") + 10
-            else:
-                break
-            if digit >= radix:
-                break
-            result = result * radix + digit
-            found = True
-        if not found:
-            return float("nan")
-        return sign * result
+        s = to_string(args[0]) if args else "undefined"
+        radix = to_int32(args[1]) if len(args) > 1 else 0
+        return parse_int(s, radix)
 
     def _global_parsefloat(self, *args):
         """Global parseFloat."""
-        s = to_string(args[0]) if args else ""
-        s = s.strip()
-        if not s:
-            return float("nan")
-
-        # Handle Infinity
-        if s.startswith("Infinity"):
-            return float("inf")
-        if s.startswith("-Infinity"):
-            return float("-inf")
-        if s.startswith("+Infinity"):
-            return float("inf")
-
-        i = 0
-        has_dot = False
-        has_exp = False
-        if s[i] in "+-":
-            i += 1
-        while i < len(s):
-            if s[i].isdigit():
-                i += 1
-            elif s[i] == "." and not has_dot:
-                has_dot = True
-                i += 1
-            elif s[i] in "eE" and not has_exp:
-                has_exp = True
-                i += 1
-                if i < len(s) and s[i] in "+-":
-                    i += 1
-            else:
-                break
-        if i == 0:
-            return float("nan")
-        try:
-            return float(s[:i])
-        except ValueError:
-            return float("nan")
+        return parse_float(to_string(args[0]) if args else "undefined")
 
     def eval(self, code: str) -> Any:
         """Evaluate JavaScript code and return the result.
